@@ -364,6 +364,45 @@ static Outcome run_encode(const SpecCase& c) {
     for (auto& m : c.spec.meths) {
         multi |= m.vp.size() >= 2;
     }
+    // One case in three: another update, of a registry with one more method
+    // registered *before* the others (so their slots move), happens between
+    // the update whose result is encoded and the encoding; the registry is
+    // then put back.  An update result must encode the same whatever
+    // happened to the policy since.
+    if ((o.hash % 3) == 0 && !w.meths.empty()) {
+        MethodDesc* extra = nullptr;
+        for (auto& d : cfg.pool) {
+            bool used = false;
+            for (auto& mi : w.meths) {
+                used |= mi.desc == &d;
+            }
+            if (!used && d.key < 2 && d.arity == 1 &&
+                std::string(d.shape) == "V") {
+                extra = &d;
+                break;
+            }
+        }
+        if (extra) {
+            auto range = w.id_array({w.meths[0].ms->vp[0]}, {});
+            extra->info->vp_begin = range.first;
+            extra->info->vp_end = range.second;
+            for (std::size_t m = 0; m < w.meths.size(); ++m) {
+                w.unregister_method(m);
+            }
+            cfg.methods->push_back(*extra->info);
+            for (std::size_t m = 0; m < w.meths.size(); ++m) {
+                w.register_method(m);
+            }
+            UpdateOutcome later = cfg.update();
+            cfg.methods->remove(*extra->info);
+            if (later.err.kind != ErrorRec::none) {
+                o.inconclusive = true;
+                return o;
+            }
+            o.classes.push_back(
+                "older_update_result_encoded_after_a_later_update");
+        }
+    }
     std::ostringstream os;
     generator::encode_dispatch_data(*up.comp, "POLICY", os);
     Encoded e = parse_encoded(os.str());
